@@ -134,3 +134,22 @@ func Sub(m M, k string) M {
 	}
 	return M{}
 }
+
+// Ints reads a list of integers whether it came from JSON ([]interface{} of float64) or from Go code.
+func Ints(m M, k string) []int {
+	var out []int
+	switch v := m[k].(type) {
+	case []int:
+		return v
+	case []interface{}:
+		for _, x := range v {
+			switch y := x.(type) {
+			case float64:
+				out = append(out, int(y))
+			case int:
+				out = append(out, y)
+			}
+		}
+	}
+	return out
+}
